@@ -165,9 +165,17 @@ func dumpRm(m map[string]string) string {
 }
 
 type rmJob struct {
-	ents []rmEntry
-	ep   string
-	pats []string
+	ents   []rmEntry
+	ep     string
+	pats   []string
+	target string // what the entry point is applied to ("" = the tree r); may be a link inside the tree
+}
+
+func (j rmJob) root() string {
+	if j.target == "" {
+		return "r"
+	}
+	return j.target
 }
 
 func (j rmJob) caseLine() string {
@@ -179,7 +187,11 @@ func (j rmJob) caseLine() string {
 	if len(j.pats) > 0 {
 		pat = strings.Join(j.pats, ",")
 	}
-	return fmt.Sprintf("rmcase %s %s -- %s", j.ep, pat, strings.Join(es, " "))
+	ep := j.ep
+	if j.target != "" {
+		ep += "@" + j.target
+	}
+	return fmt.Sprintf("rmcase %s %s -- %s", ep, pat, strings.Join(es, " "))
 }
 
 func parseRmJob(c string) (rmJob, bool) {
@@ -188,6 +200,9 @@ func parseRmJob(c string) (rmJob, bool) {
 		return rmJob{}, false
 	}
 	j := rmJob{ep: f[1]}
+	if i := strings.Index(j.ep, "@"); i >= 0 {
+		j.ep, j.target = j.ep[:i], j.ep[i+1:]
+	}
 	if f[2] != "-" {
 		j.pats = strings.Split(f[2], ",")
 	}
@@ -261,7 +276,8 @@ func runRmJob(fs filesystem.FS, s string, j rmJob) (res rmChildResult) {
 	}
 	res.Hist = append(res.Hist, "entry:"+j.ep)
 	before := snapshotRm(s)
-	root := filepath.Join(s, "r")
+	tgt := j.root()
+	root := filepath.Join(s, filepath.FromSlash(tgt))
 	ctx := context.Background()
 	var rerr error
 	goPats := make([]string, len(j.pats))
@@ -301,7 +317,7 @@ func runRmJob(fs filesystem.FS, s string, j rmJob) (res rmChildResult) {
 	isClean := strings.HasPrefix(j.ep, "CleanDir")
 	// (a) nothing outside the tree changes
 	for p, v := range before {
-		inside := strings.HasPrefix(p, "r/") || (p == "r" && !isClean && j.ep != "GarbageCollect")
+		inside := strings.HasPrefix(p, tgt+"/") || (p == tgt && !isClean && j.ep != "GarbageCollect")
 		if !inside && after[p] != v {
 			fail(hx.Failure{Kind: "impl-violates-property", Key: "removal-changes-something-outside-the-tree", Case: c,
 				Expected: p + v + " untouched", Observed: fmt.Sprintf("%s is now %q (result: %v)", p, after[p], rerr)})
@@ -317,9 +333,9 @@ func runRmJob(fs filesystem.FS, s string, j rmJob) (res rmChildResult) {
 	// (b) success without patterns: really gone
 	if rerr == nil && len(j.pats) == 0 && j.ep != "GarbageCollect" {
 		for p := range after {
-			if strings.HasPrefix(p, "r/") || (p == "r" && !isClean) {
+			if strings.HasPrefix(p, tgt+"/") || (p == tgt && !isClean) {
 				fail(hx.Failure{Kind: "impl-violates-property", Key: "removal-reports-success-but-the-tree-is-still-there", Case: c,
-					Expected: "nothing left at or below r", Observed: p + after[p] + " is still there"})
+					Expected: "nothing left at or below " + tgt, Observed: p + after[p] + " is still there"})
 				break
 			}
 		}
@@ -330,9 +346,14 @@ func runRmJob(fs filesystem.FS, s string, j rmJob) (res rmChildResult) {
 		for _, p := range j.pats {
 			ex[p] = true
 		}
+		// the entry handed to the removal is itself excluded: it survives
+		if tp := strings.Split(tgt, "/"); ex[tp[len(tp)-1]] && after[tgt] != before[tgt] {
+			fail(hx.Failure{Kind: "impl-violates-property", Key: "excluded-entry-or-ancestor-removed:first-level", Case: c,
+				Expected: tgt + before[tgt] + " survives (its own name is excluded)", Observed: fmt.Sprintf("now %q", after[tgt])})
+		}
 	outer:
 		for p, v := range before {
-			if !strings.HasPrefix(p, "r/") {
+			if !strings.HasPrefix(p, tgt+"/") {
 				continue
 			}
 			parts := strings.Split(p, "/")
@@ -363,7 +384,7 @@ func runRmJob(fs filesystem.FS, s string, j rmJob) (res rmChildResult) {
 		if isClean {
 			op = "clean"
 		}
-		res.Line = fmt.Sprintf("rm %s r %s -- %s", op, pat, strings.Join(es, " "))
+		res.Line = fmt.Sprintf("rm %s %s %s -- %s", op, tgt, pat, strings.Join(es, " "))
 		res.Obs = r + " || " + dumpRm(after)
 	}
 	return
@@ -400,6 +421,24 @@ func rmLinksMain(args []string) {
 		j := rmJob{ents: genRmTree(rnd), ep: hx.Pick(rnd, eps)}
 		if strings.Contains(j.ep, "Exclusion") {
 			j.pats = [][]string{nil, {"KX"}, {"KX", "KY"}, {"", "KX"}, {"KX", "_", "KY"}}[rnd.Intn(5)]
+		}
+		// sometimes the removal is applied to a symbolic link of the tree itself, with or without its own name excluded
+		if (j.ep == "RemoveWithContextAndExclusionPatterns" || j.ep == "RemoveWithContext" || j.ep == "Rm") && rnd.Chance(30) {
+			var links []string
+			for _, e := range j.ents {
+				if e.kind == 'l' {
+					links = append(links, e.path)
+				}
+			}
+			if len(links) > 0 {
+				j.target = hx.Pick(rnd, links)
+				if j.ep == "RemoveWithContextAndExclusionPatterns" && rnd.Bool() {
+					parts := strings.Split(j.target, "/")
+					j.pats = []string{parts[len(parts)-1]}
+				} else if j.ep == "RemoveWithContextAndExclusionPatterns" {
+					j.pats = nil
+				}
+			}
 		}
 		jobs = append(jobs, j)
 	}
